@@ -218,6 +218,25 @@ def inferType (e : DExpr) : Option String :=
   | .const .true | .const .false => some "bool"
   | _ => none
 
+/-- the run-time type of a literal expression, as Python evaluates it (only the types `inferType` can
+    name; `none` = something else) -/
+def typeOf : DExpr → Option String
+  | .const .true | .const .false => some "bool"
+  | .int _ => some "int"
+  | .float _ _ => some "float"
+  | .complex | .complexSum => some "complex"
+  | .str _ => some "str"
+  | .bytes _ => some "bytes"
+  | .unary o e =>
+    match o with
+    | .not => some "bool"
+    | .inv => if typeOf e = some "int" ∨ typeOf e = some "bool" then some "int" else none
+    | _ =>   -- unary minus / plus
+      if typeOf e = some "bool" then some "int"
+      else if typeOf e = some "int" ∨ typeOf e = some "float" ∨ typeOf e = some "complex" then typeOf e
+      else none
+  | _ => none
+
 /-! ### a model of Python's expression grammar for literal displays (declarative) -/
 
 mutual
